@@ -507,7 +507,14 @@ fn run_case(rigs: &mut Rigs, rep: &mut Report, c: &Case) {
                             } else {
                                 rep.nontrivial.insert(line.clone());
                             }
-                        } else if n > *max && o.result != "err:Capacity" {
+                        } else if n > *max
+                            && subs.iter().take(*max + 1).all(|v| v.map(|v| v.len()) == Some(w))
+                            && !(srv.mode != Mode::Auto && (c.rmbx as usize).saturating_sub(16) < w.max(1))
+                            && o.result != "err:Capacity"
+                        {
+                            // (only when the entries read BEFORE the capacity is exceeded are well-formed elements read
+                            // without segmentation: otherwise an earlier, different error is legitimate — false alarm met
+                            // with more cases: entry 1 held 2 bytes for a u32 array)
                             rep.fail("c15/read-array", &format!("{n} entries > MAX_ENTRIES {max}: expected err:Capacity, got {}", o.result), &line);
                         }
                     }
@@ -698,7 +705,7 @@ fn gen_cases(tier: &str, rng: &mut Rng, out: &mut dyn FnMut(Case)) {
         }
     }
     // random patterns for large objects, incl. a last segment below 7 bytes
-    let n_pat = if thorough { 30_000 } else { 600 };
+    let n_pat = if thorough { 30_000 } else { 2_000 };
     for _ in 0..n_pat {
         let rmbx = *rng.pick(&rmbx_pool);
         let n = rng.range(5, 512) as usize;
@@ -748,7 +755,7 @@ fn gen_cases(tier: &str, rng: &mut Rng, out: &mut dyn FnMut(Case)) {
     }
 
     // ---- 4. complete access, aborts, emergencies, unknown objects
-    let n4 = if thorough { 30_000 } else { 1200 };
+    let n4 = if thorough { 30_000 } else { 4_000 };
     for _ in 0..n4 {
         let rmbx = *rng.pick(&rmbx_pool);
         let index = *rng.pick(&[0x1c12u16, 0x2000, 0x6000, 0xffff]);
@@ -812,7 +819,7 @@ fn gen_cases(tier: &str, rng: &mut Rng, out: &mut dyn FnMut(Case)) {
         }
     }
     // arrays whose elements match the destination: consistent read / write of sub-indices 1..n and the count
-    let n_arr = if thorough { 8000 } else { 400 };
+    let n_arr = if thorough { 8000 } else { 1_200 };
     for _ in 0..n_arr {
         let w = *rng.pick(&[1usize, 2, 4]);
         let d = match w {
